@@ -512,6 +512,42 @@ func runC01(r *core.Run) {
 		}
 		r.Obs("opaque_8bit_cube_pixels_per_space_and_constructor", 1<<24)
 	}
+	// one colour object, handed over by pointer and modified in place between the calls (a pixel
+	// buffer a caller reuses): every call decodes what the object holds at that moment
+	{
+		var n int64
+		for _, s := range libSpaces {
+			p64, pn64, pn8, p8 := &color.RGBA64{A: 0xFFFF}, &color.NRGBA64{A: 0xFFFF}, &color.NRGBA{A: 0xFF}, &color.RGBA{A: 0xFF}
+			bad := false
+			for i := 0; i < 4*4096 && !bad; i++ {
+				code := []int{0, 0xFFFF, 0x8000, 1, 0xFFFE, int(uint32(i)*2654435761>>7) & 0xFFFF, 0x0101 * (i & 0xFF)}[i%7]
+				p64.R, p64.G, p64.B = uint16(code), uint16(code>>1), uint16(0xFFFF-code)
+				pn64.R, pn64.G, pn64.B = uint16(0xFFFF-code), uint16(code), uint16(code>>2)
+				pn8.R, pn8.G, pn8.B = uint8(code>>8), uint8(code), uint8(255-code>>8)
+				p8.R, p8.G, p8.B = uint8(code), uint8(code>>8), uint8(255-code)
+				for k, c := range []color.Color{p64, pn64, pn8, p8} {
+					if k != i/4096 { // runs of 4096 consecutive calls with one and the same object
+						continue
+					}
+					r16, g16, b16, _ := c.RGBA()
+					got, a := s.FromEncoded(c)
+					n++
+					for ch, v := range [3]uint32{r16, g16, b16} {
+						want := s.Ref.Curve.EOTF(float64(v) / 65535)
+						if gv := float64([3]float32{got.R, got.G, got.B}[ch]); !(math.Abs(gv-want) <= c01Tol) || a != 1 {
+							typ := []string{"*color.RGBA64", "*color.NRGBA64", "*color.NRGBA", "*color.RGBA"}[k]
+							cc := c01CarrierCase{Space: s.Name, Type: typ, V: [4]uint16{uint16(r16), uint16(g16), uint16(b16), 0xFFFF}}
+							r.Violate("carrier", fmt.Sprintf("%s/ColorFromEncodedColor/reused-pointer", s.Name), fmt.Sprintf("%s ColorFromEncodedColor(%s %v), an object modified in place since the previous call (call #%d): channel %d decoded to %.9g (alpha %v), the published EOTF of %#04x is %.9g", s.Name, typ, c, i+1, ch, gv, a, v, want), cc)
+							bad = true
+							break
+						}
+					}
+				}
+			}
+		}
+		r.AddEvals(n)
+		r.NTCount(n)
+	}
 	// every carrier type: the decoded value is a function of the 16-bit components the colour
 	// reports through RGBA(), whatever its concrete type (YCbCr, CMYK, NYCbCrA, Alpha16, a caller's
 	// own type, pointers to the standard types)
@@ -531,6 +567,9 @@ func runC01(r *core.Run) {
 		r.Obs("carrier_type_cases", n)
 	}
 	if r.Variant == "" {
+		// the whole workload once more in the GOARCH=386 build of this monitor (see ./check)
+		r.RunVariantChild("arch386@16", 30*time.Minute, false)
+		r.Obs("arch386_child", "run")
 		for _, v := range []string{"encfirst@3", "encfirst+rev@1", "warm@2", "decfirst+encfirst@2", "decfirst+encfirst+rev@6", "atinit@1", "atinit@16", "imgfirst@4", "imgfirst+rev@16"} {
 			r.RunVariantChild(v, 10*time.Minute, false)
 		}
